@@ -635,9 +635,7 @@ String String::substr(int i, int n) const
 	if (i < 0) i += _len;
 	if (i >= _len)
 		i = _len;
-	int j = i + n;
-	if (j > _len)
-		j = _len;
+	int j = (n > _len - i) ? _len : i + n; // i + n can overflow for a large count
 	String s(j - i, j - i);
 	memcpy(s.str(), str() + i, j - i);
 	s.str()[j - i] = '\0';
